@@ -698,6 +698,91 @@ impl C14 {
     }
 }
 
+impl C14 {
+    /// PacketBuilder payloads: IPv4 total length / IPv6 payload length / UDP length are 16 bit
+    fn builder(&mut self, rep: &mut Report, rng: &mut Prng) {
+        use crate::observe::builder::{self as b, BLink, BNet, BResult, BTr, BVlan, Out};
+        let mut c = b::rand_conf(rng);
+        if matches!(c.net, BNet::Arp(_)) {
+            return;
+        }
+        // ICMPv6 in IPv4 is rejected for another reason
+        let v4 = matches!(c.net, BNet::Ipv4 { .. } | BNet::Ip(etherparse::IpHeaders::Ipv4(..)));
+        if v4 && matches!(c.tr, BTr::Icmp6(_) | BTr::Icmp6Raw { .. } | BTr::Icmp6EchoRequest { .. } | BTr::Icmp6EchoReply { .. }) {
+            c.tr = BTr::Udp { sp: 1, dp: 2 };
+        }
+        if rng.bool() {
+            c.vlan = BVlan::None;
+        }
+        let size0 = match b::run(&c, Out::Size(0), &[]) {
+            BResult::Size(n) => n,
+            _ => return,
+        };
+        let ll = (match c.link {
+            BLink::None => 0,
+            BLink::Eth { .. } => 14,
+            BLink::Sll { .. } => 16,
+        }) + match c.vlan {
+            BVlan::None => 0,
+            BVlan::Single(_) | BVlan::SingleHeader { .. } => 4,
+            _ => 8,
+        };
+        // headers behind the link layer that count into the 16 bit length field
+        let counted = if v4 { size0 - ll } else { size0 - ll - 40 };
+        let limit = 65535 - counted;
+        let api = match (&c.tr, v4) {
+            (BTr::Udp { .. }, true) => "PacketBuilder(udp/ipv4)",
+            (BTr::Udp { .. }, false) => "PacketBuilder(udp/ipv6)",
+            (BTr::Tcp(_) | BTr::TcpHeader(_), true) => "PacketBuilder(tcp/ipv4)",
+            (BTr::Tcp(_) | BTr::TcpHeader(_), false) => "PacketBuilder(tcp/ipv6)",
+            (BTr::Raw(_), true) => "PacketBuilder(raw/ipv4)",
+            (BTr::Raw(_), false) => "PacketBuilder(raw/ipv6)",
+            (_, true) => "PacketBuilder(icmp/ipv4)",
+            (_, false) => "PacketBuilder(icmp/ipv6)",
+        };
+        for len in [limit.saturating_sub(2), limit.saturating_sub(1), limit, limit + 1, limit + 2, limit + 8, 65535, 65536, 65537, 70_000] {
+            let payload = self.zeros(len);
+            let mut out: Vec<u8> = Vec::new();
+            rep.evals += 1;
+            let r = match shell::guarded(|| b::run(&c, Out::Vec(&mut out), payload)) {
+                Ok(r) => r,
+                Err(p) => {
+                    rep.violation(&format!("panic|{}|{}", api, p.location()), format!("{:?} payload {}: {}", c, len, p.0), &[]);
+                    return;
+                }
+            };
+            match (&r, len <= limit) {
+                (BResult::Ok, true) => {
+                    // the encoded length fields decode to the real sizes
+                    let ip = &out[ll..];
+                    let field = if v4 { ((ip[2] as usize) << 8 | ip[3] as usize) as usize } else { 40 + ((ip[4] as usize) << 8 | ip[5] as usize) };
+                    let mut ok = field == ip.len();
+                    if let BTr::Udp { .. } = c.tr {
+                        let u = &out[out.len() - len - 8..];
+                        ok &= ((u[4] as usize) << 8 | u[5] as usize) == 8 + len;
+                    }
+                    if !ok {
+                        rep.violation(&format!("encoded_value_differs|{}", api), format!("{:?}: payload {} accepted but a length field does not decode to the real size", c, len), &out[..out.len().min(80)]);
+                        return;
+                    }
+                    rep.count(&format!("accepted.{}", api));
+                }
+                (BResult::Err(class, _), false) if class == "PayloadLen" => rep.count(&format!("rejected.{}", api)),
+                (BResult::ConfigErr(_), _) => return,
+                (other, fits) => {
+                    rep.violation(
+                        &format!("{}|{}", if fits { "rejects_representable" } else { "accepts_unrepresentable" }, api),
+                        format!("{:?}: payload of {} bytes (limit {}): {:?}", c, len, limit, other.class()),
+                        &out[..out.len().min(80)],
+                    );
+                    return;
+                }
+            }
+            rep.sig(&format!("{}|{}", api, (len > limit) as u8 + 2 * (len == limit) as u8));
+        }
+    }
+}
+
 impl Monitor for C14 {
     fn engines(&self, tier: Tier) -> Vec<(&'static str, u64)> {
         vec![
@@ -709,6 +794,7 @@ impl Monitor for C14 {
             ("auth_ext", tier.pick(32, 128)),
             ("options", 16),
             ("arp", tier.pick(640, 6400)),
+            ("builder", tier.pick(3_000, 30_000)),
         ]
     }
 
@@ -724,6 +810,7 @@ impl Monitor for C14 {
             "auth_ext" => self.auth_and_ext(rep, rng),
             "options" => self.options(rep),
             "arp" => self.arp(rep, rng),
+            "builder" => self.builder(rep, rng),
             _ => {}
         });
         if let Err(p) = r {
